@@ -219,6 +219,16 @@ func genRich(t *core.Tape, tier, prop string) *Scenario {
 		sc.Clients[0].OwnTypeCodec = true
 		sc.Notes["client_codec_cannot_decode_status"]++
 	}
+	if prop == "C02" && !sc.Clients[0].OwnTypeCodec && t.Bool(1, 10, "strict.handler.codec") {
+		// the same handler in C02: over gRPC and gRPC-Web the library answers
+		// "internal: marshal protobuf status" whenever the Status cannot be
+		// marshalled, details or not - the pinned suite requires exactly that
+		// (TestGRPCMarshalStatusError), so code and text are not decided here;
+		// that the failure is a failure, and its metadata, are. Over Connect
+		// nothing needs the codec and the error must arrive as it is.
+		sc.Handlers[0].StrictCodec = true
+		sc.Notes["handler_codec_cannot_marshal_status"]++
+	}
 	if prop == "C11" && t.Bool(1, 8, "strict.handler.codec") {
 		// the handler's codecs marshal the service's own messages and nothing
 		// else: a gRPC Status cannot be built, the error's code and text are
@@ -563,6 +573,24 @@ func checkC02(w *World, st core.Status, r *RunResult) []Violation {
 		if !errors.As(o.Final, &ce) {
 			add("not-a-connect-error", fmt.Sprintf("%T: %v", o.Final, o.Final))
 			continue
+		}
+		if w.Sc.Handlers[p.Handler].StrictCodec && w.Sc.Clients[p.Client].Proto != PConnect {
+			// the handler's codec cannot marshal the Status: what becomes of code
+			// and text is not decided here (see genRich) - the failure must be a
+			// failure with a code, and the metadata, plain fields, must arrive
+			r.Probes["handler_cannot_marshal_status"]++
+			if ce.Code() == 0 {
+				add("not-a-connect-error", fmt.Sprintf("code 0: %v", o.Final))
+			}
+			if !p.HErr.Plain {
+				if why, ok := containsValues(ce.Meta(), p.HErr.Meta); !ok {
+					add("metadata-missing", why)
+				}
+			}
+			continue
+		}
+		if w.Sc.Handlers[p.Handler].StrictCodec {
+			r.Probes["handler_cannot_marshal_status_error_checked_in_full"]++
 		}
 		wantCode, wantMsg := expectedError(p)
 		if ce.Code() != wantCode {
